@@ -128,6 +128,54 @@ type Term struct {
 	C    uint64
 	Name string
 	umax uint64 // unsigned upper bound (BV only)
+	vs   bitset // free variables (indices into TermCtx.vars); nil = none
+	uf   bool   // contains an uninterpreted function / array variable
+}
+
+type bitset []uint64
+
+func (b bitset) subsetOf(o bitset) bool {
+	for i, w := range b {
+		if w == 0 {
+			continue
+		}
+		if i >= len(o) || w&^o[i] != 0 {
+			return false
+		}
+	}
+	return true
+}
+
+func bitsetUnion(a, b bitset) bitset {
+	if len(a) == 0 {
+		return b
+	}
+	if len(b) == 0 {
+		return a
+	}
+	if b.subsetOf(a) {
+		return a
+	}
+	if a.subsetOf(b) {
+		return b
+	}
+	n := len(a)
+	if len(b) > n {
+		n = len(b)
+	}
+	r := make(bitset, n)
+	copy(r, a)
+	for i, w := range b {
+		r[i] |= w
+	}
+	return r
+}
+
+func (b bitset) with(i int) bitset {
+	r := make(bitset, max(len(b), i/64+1))
+	copy(r, b)
+	r[i/64] |= 1 << uint(i%64)
+	return r
 }
 
 func (t *Term) IsConst() bool { return t.Op == OpConst }
@@ -143,6 +191,7 @@ type tkey struct {
 type TermCtx struct {
 	tab    map[tkey]*Term
 	named  map[string]*Term
+	varIdx map[string]int
 	nterms int
 	True   *Term
 	False  *Term
@@ -150,7 +199,7 @@ type TermCtx struct {
 }
 
 func NewTermCtx() *TermCtx {
-	c := &TermCtx{tab: map[tkey]*Term{}, named: map[string]*Term{}}
+	c := &TermCtx{tab: map[tkey]*Term{}, named: map[string]*Term{}, varIdx: map[string]int{}}
 	c.True = c.mk(OpConst, SBool, 1, "")
 	c.False = c.mk(OpConst, SBool, 0, "")
 	return c
@@ -197,6 +246,26 @@ func (c *TermCtx) mk(op Op, s Sort, cv uint64, name string, args ...*Term) *Term
 	c.nterms++
 	if s.K == KBV {
 		t.umax = c.computeUmax(t)
+	}
+	switch op {
+	case OpVar:
+		i, ok := c.varIdx[name]
+		if !ok {
+			i = len(c.varIdx)
+			c.varIdx[name] = i
+		}
+		t.vs = bitset(nil).with(i)
+		if s.K == KArr {
+			t.uf = true
+		}
+	case OpUF:
+		t.uf = true
+	}
+	for _, a := range args {
+		t.vs = bitsetUnion(t.vs, a.vs)
+		if a.uf {
+			t.uf = true
+		}
 	}
 	if nkey != "" {
 		c.named[nkey] = t
